@@ -129,7 +129,7 @@ CLAIMED = {
         "checked after every step of every history on the real code (validate(True) + range/arity/non-emptiness/dtype "
         "conditions + abscissae/sparsity) and on the model. Partial as C06.",
         "Trusted: Lean kernel; correspondence for operations without theorems.",
-        "Lean 4 proof (invariant preservation, partial) + per-step validation on real code and model",
+        "Lean 4 proof (invariant preservation, partial) + per-step validation on real code and model + validate(True) regenerated from the source (translator) and proved to be the model's validates",
         "DESIGN.md §5 C07"),
     "C15": (
         "Lean 4 theorems: __eq__ model holds iff shape, common and dense content coincide (for well-formed indexes), is "
